@@ -66,7 +66,7 @@ for p in props:
         na.append({"property_id": i, "reason": DISABLED.get(i, "runtime monitor designed (DESIGN.md §3) but its check is not built/registered yet; nothing is claimed for it")})
 m = {
  "version": 1,
- "setup_cmd": "cd /verif/harness && " + ENV + " && ([ -f go.sum ] || cp /repo/go.sum go.sum) && go build ./... && go vet -tags verif ./vlib/ && go test -tags verif -count=1 -run '^$' ./... >/dev/null",
+ "setup_cmd": "/verif/harness/tools/setup.sh",
  "hooks": {"guard": "verif", "enable": "go test -tags verif in the harness module (replace github.com/samsarahq/thunder => /repo)",
            "baseline_off_cmd": "cd /repo && GOFLAGS=-mod=mod GOPROXY=off GOSUMDB=off GOTOOLCHAIN=local go test -json -vet=off -count=1 -timeout 25m ./...",
            "source_commits": hook_commits, "add_only": True},
